@@ -472,9 +472,13 @@ func (c08) RunCase(c fw.Case, env *fw.Env) *fw.CaseResult {
 		var op gen.Op
 		if step == 0 && pq {
 			op = gen.Op{Kind: gen.OpInsert, Tag: "bulk-insert-for-training"}
+			// every bulk point carries its vector fields: the trigger (1000) must really be crossed
+			keep := g.PresentProb
+			g.PresentProb = 1
 			for i := 0; i < 1030; i++ {
 				op.Points = append(op.Points, model.Point{Id: g.NewId(), Doc: g.Doc()})
 			}
+			g.PresentProb = keep
 		} else {
 			op = h.Next(m)
 		}
